@@ -467,6 +467,14 @@ def selftest_seeded(ids):
     for sid in sorted(os.listdir(root)):
         if ids and sid not in ids: continue
         meta = json.load(open(os.path.join(root, sid, "meta.json")))
+        if meta.get("expect") == "quiet":
+            # a behaviour-preserving change: every registered check must stay silent
+            r = sh([os.path.join(HERE, "checks", "mutcheck.sh"), os.path.join(root, sid, "patch.diff")] + sorted(JOBS), timeout=7200)
+            noisy = [l for l in r.stdout.splitlines() if l.startswith(("VIOLATION", "MACHINERY", "KNOWN-FINDING"))]
+            print("seeded/%-10s all %d checks: %s" % (sid, len(JOBS), "quiet" if not noisy and r.stdout.count("tier=") == len(JOBS) else "NOT QUIET / INCOMPLETE"))
+            for l in noisy: print("   ", l[:220])
+            if noisy or r.stdout.count("tier=") != len(JOBS): bad += 1
+            continue
         props = list(meta["caught_by"].keys())
         r = sh([os.path.join(HERE, "checks", "mutcheck.sh"), os.path.join(root, sid, "patch.diff")] + props, timeout=3600)
         for pr in props:
